@@ -304,9 +304,12 @@ def main() -> int:
         argt = f"({', '.join(names)},)" if names else "()"
         d = {"expr": sh["expr"]}
         items.append(Item(f"id{i}", params, pre, f"check_identity({i}, {argt})", describe=d, family="identity"))
-        if sh["n"]:
+        big = run.tier == "quick" and sh["n"] > 6       # quick: the largest shapes get fewer companion obligations
+        if sh["n"] and not big:
             items.append(Item(f"bij{i}", params, pre, f"check_bijection({i}, {argt})", describe=d, family="bijection-inverse"))
         which = range(nm) if (sh.get("core") or run.tier == "thorough") else [(i * 2) % nm, (i * 2 + 1) % nm]
+        if big:
+            which = [0, 2, 5] if sh.get("core") else [(i * 2) % nm]
         for m in which:
             mp = MAPS[m]
             mh = _shift(mp["holes"], sh["n"])
